@@ -41,6 +41,7 @@ _AGG_TBL = models.PlacementAggregate.__table__
 _RP_AGG_TBL = models.ResourceProviderAggregate.__table__
 _RP_TRAIT_TBL = models.ResourceProviderTrait.__table__
 _TRAIT_TBL = models.Trait.__table__
+_RC_TBL = models.ResourceClass.__table__
 
 LOG = logging.getLogger(__name__)
 
@@ -104,6 +105,15 @@ def _add_inventory_to_provider(ctx, rp, inv_list, to_add):
     :param to_add: set() containing resource class IDs to search inv_list for
                    adding to resource provider.
     """
+    # The class ids come from a per-request cache that may have been filled
+    # before this transaction began. A class deleted since then must not get
+    # inventory.
+    if to_add:
+        sel = sa.select(_RC_TBL.c.id).where(_RC_TBL.c.id.in_(to_add))
+        found = set(r[0] for r in ctx.session.execute(sel).fetchall())
+        for rc_id in to_add - found:
+            raise exception.ResourceClassNotFound(
+                name=ctx.rc_cache.string_from_id(rc_id))
     for rc_id in to_add:
         rc_str = ctx.rc_cache.string_from_id(rc_id)
         inv_record = inv_obj.find(inv_list, rc_str)
